@@ -493,8 +493,43 @@ def registry():
     return sorted(out)
 
 
+# ---- match records are per match: a selector may hand out lazy values that read them later
+LAZY_SUBJECTS = ['abcab', 'aab', 'ba', '', 'abab']
+LAZY_EXPRS = [
+    ("regex('(a+)(b*)').searchAll($s, [value, start, end].select($2.get($))).toList()",
+     lambda m: [m.group(1), m.start(1), m.end(1)]),
+    ("regex('(a+)(b*)').searchAll($s, [value, start, end].select($2.get($))).reverse().reverse()",
+     lambda m: [m.group(1), m.start(1), m.end(1)]),
+    ("regex('(?P<x>a+)(b*)').searchAll($s, [1, 2].select($x.start + $)).toList()",
+     lambda m: [m.start('x') + 1, m.start('x') + 2]),
+    ("regex('(a+)(b*)').searchAll($s, [1].select([$2.value, $3.value, $])).toList()",
+     lambda m: [[m.group(1), m.group(2), 1]]),
+]
+LZBOX = [(i,) for i in range(8)]
+
+
+def searchall_lazy(e: int, i: int) -> bool:
+    """
+    pre: 0 <= e < len(LAZY_EXPRS) and 0 <= i < len(LAZY_SUBJECTS)
+    post: _
+    """
+    import re as _re
+    text, model = LAZY_EXPRS[LZBOX[e][0]]
+    subj = LAZY_SUBJECTS[LZBOX[i][0]]
+    with H.NoTracing():
+        pat = _re.compile(_re.search(r"regex\('(.*?)'\)", text).group(1))
+        exp = [model(m) for m in pat.finditer(subj)]
+        got = yq.outcome(text, s=subj)
+        ok = got == ('ok', exp)
+    return H.done(ok)
+
+
 def conditions(tier, seed):
     quick = tier == 'quick'
+    lazy_cond = {'name': 'searchAll: lazy selector results read their own match records', 'func': 'searchall_lazy', 'timeout': 100,
+                 'bounds': '%d searchAll expressions whose selector returns a lazy sequence reading $1.., $name inside its own lambda, '
+                           'consumed after all matches were produced; %d subjects; Python re is the oracle (selectors)' % (
+                               len(LAZY_EXPRS), len(LAZY_SUBJECTS))}
     slen = 2 if quick else 3
     t = 300 if quick else 900
     xr, cmax = (1, 2) if quick else (2, 3)
@@ -554,6 +589,7 @@ def conditions(tier, seed):
     if K_HEX in KNOWN:
         out.append({'name': 'probe[hex-non-integer]', 'func': 'probe_hex', 'timeout': 60, 'kind': 'probe',
                     'param': {'probe_key': K_HEX}, 'bounds': 'v: null or float'})
+    out.append(lazy_cond)
     return out
 
 
